@@ -84,6 +84,9 @@ func main() {
 		}
 		r := ev.New(os.Args[2], tier, p.level)
 		r.ChildResult = res
+		// a child whose workload blocks for good inside zap reports that itself (decided by quiescence),
+		// long before the parent's wall-clock guard would kill it
+		r.StartWatchdog(3 * time.Minute)
 		p.child(r, args[:len(args)-1])
 		if err := r.DumpTo(res); err != nil {
 			fmt.Fprintln(os.Stderr, "dump:", err)
